@@ -97,7 +97,8 @@ def gen_entries(rng, n, boundary=True):
             k = rng.choice(["sat", "orbit", "v", "note", "näme", "x y"])
             attr[k] = rng.choice(["noaa18", "", "☃ snow", 42, -1, 3.5, True, None,
                                   [1, 2, "a"], {"a": {"b": 1}}, "q\"uote\\back", "line\nbreak"])
-        out.append({"path": "/data/%s/f%05d_%d.nc" % (rng.choice(["a", "b b", "ü"]), i,
+        # (incl. a name whose bytes are not valid UTF-8: python carries it as a lone surrogate)
+        out.append({"path": "/data/%s/f%05d_%d.nc" % (rng.choice(["a", "b b", "ü", "caf\udce9"]), i,
                                                        rng.randrange(10 ** 6)),
                     "t0": t0, "t1": t1, "attr": attr})
     return out
@@ -209,6 +210,24 @@ def roundtrip_case(rec, rng, entries, via):
         diff = compare_cache(cache, entries)
         if diff or warns:
             rec.violation("cache-roundtrip", case, dict(diff or {}, warnings=[x[:200] for x in warns]))
+        elif via == "load" and entries:
+            # call history on the loading object: the cache is emptied (reset_cache / time_coverage set
+            # anew) and the unchanged file is loaded once more
+            for how in ("reset_cache", "time_coverage"):
+                if how == "reset_cache":
+                    fs2.reset_cache()
+                else:
+                    fs2.time_coverage = dt.timedelta(hours=3)
+                with warnings.catch_warnings(record=True) as w:
+                    warnings.simplefilter("always")
+                    fs2.load_cache(path)
+                d2 = compare_cache(fs2.info_cache, entries)
+                w2 = [str(x.message) for x in w]
+                rec.count("roundtrip.reload_after_reset")
+                if d2 or w2:
+                    rec.violation("cache-roundtrip", dict(case, history="load, %s, load again" % how),
+                                  dict(d2 or {}, warnings=[x[:200] for x in w2]))
+                    break
         rec.count("roundtrip.entries", len(entries))
         has_boundary = any(e["t0"] in BOUNDARY_TIMES or e["t0"].microsecond in (1, 999999)
                            for e in entries)
@@ -395,7 +414,10 @@ elif mode == "dump":        # fresh interpreter: what does a new FileSet see?
 '''
 
 
-def child(root, *args, strace=None, timeout=120):
+C_LOCALE = {"LC_ALL": "C", "LANG": "C", "PYTHONUTF8": "0", "PYTHONCOERCECLOCALE": "0"}
+
+
+def child(root, *args, strace=None, timeout=120, env=None):
     script = os.path.join(root, "child.py")
     if not os.path.exists(script):
         with open(script, "w") as fh:
@@ -404,13 +426,14 @@ def child(root, *args, strace=None, timeout=120):
     if strace:
         cmd = strace + cmd
     try:
-        return subprocess.run(cmd, capture_output=True, text=True, timeout=timeout)
+        return subprocess.run(cmd, capture_output=True, text=True, timeout=timeout,
+                              env=None if env is None else dict(os.environ, **env))
     except subprocess.TimeoutExpired:
         return None
 
 
-def dump_fresh(root, cache):
-    r = child(root, "dump", cache, "-")
+def dump_fresh(root, cache, env=None):
+    r = child(root, "dump", cache, "-", env=env)
     if r is None:
         return None
     for line in r.stdout.splitlines():
@@ -428,6 +451,10 @@ def restart_case(rec, rng, reset=None):
         if reset is None:
             reset = rng.random() < 0.5
         gen3 = gen_entries(rng, rng.choice([1, 5, 60])) if reset else None
+        # every other restart runs in processes whose locale encoding is not UTF-8
+        loc = C_LOCALE if rng.random() < 0.5 else None
+        if loc:
+            rec.count("restart.c_locale_runs")
         for g, route in ((gen1, "normal"), (gen2, rng.choice(["exception", "sysexit"]))):
             rows = os.path.join(root, "rows.json")
             json.dump(ser(g), open(rows, "w"))
@@ -438,13 +465,13 @@ def restart_case(rec, rng, reset=None):
                 json.dump(ser(gen3), open(rows3, "w"))
                 extra = [rows3]
                 rec.count("restart.reset_runs")
-            r = child(root, "atexit", cache, rows, route, *extra)
+            r = child(root, "atexit", cache, rows, route, *extra, env=loc)
             rec.ev()
             rec.count("restart.runs")
             if r is None:
                 rec.inconc("restart child timed out")
                 return
-        d = dump_fresh(root, cache)
+        d = dump_fresh(root, cache, env=loc)
         if reset:
             want = {e["path"]: e for e in gen3}
         else:
